@@ -153,6 +153,14 @@ class Trav:
                     continue
                 if self.W is not None and recv_region(an, ev["args"][0]) == self.W:
                     self.w_edits.append(ev)
+            if self.W is not None and ev["k"] == "store" and ev["region"] == self.W:
+                # the whole worklist is replaced (`self.heap = rebuilt`)
+                self.w_edits.append({"k": "store", "key": "assign::assignment", "span": ev["span"], "b": ev["b"]})
+            if self.W is not None and ev["k"] == "call" and an.blocks[ev["b"]]["term"].get("dest") is not None:
+                md, nm_, _ = an.walk_place(an.blocks[ev["b"]]["term"]["dest"])
+                if md == "mem" and nm_ == self.W:
+                    self.w_edits.append({"k": "store", "key": "assign::assignment (result of %s)" % ev["key"].split("::")[-1],
+                                         "span": ev["span"], "b": ev["b"]})
         # returns
         self.rets = []   # (block, stmt idx, term)
         for (b, i), t in an.stmt_terms.items():
